@@ -210,7 +210,6 @@ Section Cmp.
     destruct (t =? TYPE_OPT)%N eqn:Eopt.
     - destruct Hrest as (Hsec & Hne & Hs0 & Hs1 & n & Htile). subst sec seen'. rewrite <- Hseen in Hs0.
       cbn [section_eqb negb]. rewrite fst_bindc. cbn [fst lift ps_off ps_set_off].
-      assert (Hcn' := Hcn). destruct Hcn' as [_ Hna].
       rewrite usub_eval by lia. cbn [bind].
       destruct (negb (ne - ps_off s =? 1)) eqn:E1; [lia|].
       destruct (parse_opt_complete (ps_set_off s ne) w n) as (s' & Hr & Ho' & Hse); cbn [ps_off ps_set_off ps_edns_end]; auto; try lia.
@@ -240,7 +239,7 @@ Theorem parse_complete : forall p, bytes_ok p -> wf_packet p -> exists v, parse 
 Proof.
   intros p Hb (w & an & ns & ar & qe & qclass & e1 & s1 & e2 & s2 & s3 & Hw & Hqd & Han & Hns & Har & Hqn & Hq4 & Hqc & Hcls & Hqr & Ha & Hn & Hr).
   subst qclass.
-  assert (Hlen : 12 < length p) by (destruct Hqn; lia).
+  assert (Hlen : 12 < length p) by (destruct Hqn as (? & ? & ?); lia).
   unfold parse, parse_c, DNS_HEADER_SIZE, DNS_QUESTION_OFFSET.
   destruct (length p <? 12) eqn:E0; [lia|].
   rewrite fst_bindc. cbn [fst lift]. unfold hdr_flags_word, DNS_FLAGS_OFFSET.
